@@ -321,7 +321,9 @@ def run_mean(case):
 
 @st.composite
 def xyz_case(draw):
-    comp = st.one_of(st.sampled_from([0.0, 0.0, 1.0, -1.0]), _f(-1.0, 1.0), small_exp, small_exp.map(lambda e: -e))
+    # incl. components so small that their squares are subnormal (1e-155 ... 1e-162), of either sign
+    tiny = st.tuples(st.sampled_from([1.0, -1.0]), _f(-162.0, -150.0)).map(lambda t: t[0] * 10.0 ** t[1])
+    comp = st.one_of(st.sampled_from([0.0, 0.0, 1.0, -1.0]), _f(-1.0, 1.0), small_exp, small_exp.map(lambda e: -e), tiny)
     v = [draw(comp), draw(comp), draw(comp)]
     scale = draw(st.sampled_from([1.0, 1.0, 2.5, 1e-3]))
     return {"xyz": [c * scale for c in v]}
